@@ -254,3 +254,5 @@ def subchecks():
 
 
 SELECTORS = {}
+
+FUZZ = [("conversions", 60000), ("rejects", 30000)]
